@@ -206,6 +206,18 @@ func (pl *Pool) Table(r *ref.R, n int) []string {
 	}
 	for len(out) < n {
 		switch {
+		case len(out) > 0 && r.Chance(1, 6):
+			// a straight extension of an existing pattern: the shorter one ends where the longer one goes on
+			base := ref.Pick(r, out)
+			ext := base + ref.Pick(r, []string{"/", "/x", ".html", "-", "/x/"})
+			if r.Bool() {
+				if t := ref.Pick(r, Tokens); !strings.Contains(base, "{"+t.Name) && !strings.Contains(base, "{-"+t.Name) {
+					ext += t.Text
+				}
+			}
+			if _, cls := ref.Parse(ext, nil); cls == ref.SynOK {
+				add(ext)
+			}
 		case len(out) > 0 && r.Chance(1, 2):
 			add(pl.Derive(r, ref.Pick(r, out)))
 		case r.Chance(1, 5):
